@@ -979,7 +979,7 @@ pub fn run_check(property: &str, tier: &str, part: Option<&str>, worker: bool) -
             "failing": so.failing.len(), "failing_confirmed_natively_(jit_vs_bytecode_interpreter_on_the_same_bytecode)": so.failing_confirmed_natively,
             "failing_not_confirmed": unconfirmed, "undecided": so.undecided.len(),
             "solver_queries": so.stats.queries,
-            "rule": "operand kinds {tape cell, callee-saved register temp, caller-saved register temp, stack temp, immediate} x aliasing x immediate class {0, +-1, 127, 128, -128, -129, i32 bounds +-1, u32 bounds +-1, i64 bounds} x live mask {exact, all live}; every form at 64 bits, every third form at 8/16/32 bits in the quick tier",
+            "rule": "operand kinds {tape cell, callee-saved register temp, caller-saved register temp, stack temp, immediate} x aliasing x immediate class {0, +-1, 127, 128, -128, -129, i32 bounds +-1, u32 bounds +-1, i64 bounds} x live mask {exact, all live}; every form at 64 bits, every third form at 8/16/32 bits in the quick tier; plus, at every width and in every tier, the displacement-boundary family: tape operands at byte displacement 128-size, 128, 128+size and their negatives in 36 operand-kind combinations x live mask, and stack temporaries 15, 16, 17 ([rsp+120], [rsp+128], [rsp+136]), with the lemma program's window widened to the operand and every cell of it symbolic",
             "samples": so.failing.iter().take(3).collect::<Vec<_>>(),
         });
         cov["evaluations"] = json!(cov["evaluations"].as_u64().unwrap_or(0) + so.forms);
